@@ -54,6 +54,8 @@ def may_equal_sentinel(v, sentinel_kind):
         return v in ("NONE", "ANY")
     if sentinel_kind == "empty":
         return v in ("EMPTY", "LIST", "ANY")
+    if sentinel_kind == "falsy":
+        return v in ("NONE", "EMPTY", "LIST", "ANY")
     return True
 
 
@@ -82,14 +84,23 @@ def rule_no_reanchoring(chk, rid):
         return
     kinds = set()
     for a in anchors:
+        ak = set()
         for _, txt, pol, _ in dominating_literals(cfg, a):
             if txt == f"{acc} is None" and pol:
-                kinds.add("none")
+                ak.add("none")
             if txt == f"len({acc}) == 0" and pol:
-                kinds.add("empty")
-    if len(kinds) != 1:
+                ak.add("empty")
+            if txt in (acc, f"len({acc})", f"bool({acc})") and not pol:
+                ak.add("falsy")      # `not acc`: true for None *and* for the empty list
+        if not ak:
+            ak.add("falsy")          # anchors without a recognised un-anchored test: treated as the weakest test
+        kinds |= ak
+    if "falsy" in kinds or len(kinds) > 1:
+        sk = "falsy"
+    elif len(kinds) == 1:
+        sk = next(iter(kinds))
+    else:
         raise AnalysisError(f"_query_to_absolute: cannot derive the anchoring test (found {sorted(kinds)})")
-    sk = kinds.pop()
     chk.count(f"anchoring sentinel: {sk}", 1)
     # entry call passes the sentinel
     ta = repo.func(P, "ResourceQuerySegment.to_absolute")
@@ -97,7 +108,7 @@ def rule_no_reanchoring(chk, rid):
     if len(entry) != 1:
         raise AnalysisError("to_absolute: entry call not found")
     ev = absval(entry[0].args[1], acc, [], sk)
-    chk.ob(rid, f"{P}.ResourceQuerySegment.to_absolute", (sk == "none" and ev == "NONE") or (sk == "empty" and ev == "EMPTY"),
+    chk.ob(rid, f"{P}.ResourceQuerySegment.to_absolute", (sk == "none" and ev == "NONE") or (sk == "empty" and ev == "EMPTY") or (sk == "falsy" and ev in ("NONE", "EMPTY")),
            f"entry call starts un-anchored (accumulator `{U(entry[0].args[1])}`)", entry[0], m, key="entry-sentinel")
     # recursive calls: accumulator-derived arguments
     rec = [c for c in calls_in(fn, tail=fn.name)]
